@@ -89,6 +89,11 @@ def make_world(rng, backing):
     )
     ds.efth.attrs = {"units": "m2/Hz/deg", "note": "caller attr"}
     ds.efth.encoding = {"dtype": "float32", "_FillValue": -1.0}
+    # what a dataset opened from a chunked netCDF4 / zarr store carries on its coordinates
+    ds.time.encoding = {"units": "hours since 2000-01-01", "calendar": "proleptic_gregorian", "chunksizes": (1,), "original_shape": (nt,),
+                        "preferred_chunks": {"time": 1}}
+    ds.freq.encoding = {"chunksizes": (len(freq),), "original_shape": (len(freq),), "preferred_chunks": {"freq": len(freq)}, "dtype": "float32"}
+    ds.dir.encoding = {"chunksizes": (len(dirs),), "original_shape": (len(dirs),), "preferred_chunks": {"dir": len(dirs)}}
     ds.freq.attrs = {"units": "Hz"}
     if backing == "dask":
         ds = ds.chunk({"time": 1, "site": 1})
@@ -323,6 +328,24 @@ def ops_table(ws):
             return (lambda: getattr(d1.spec, name)(path, **kw2)), [d1, kw2]
         return f
 
+    def writer_failing(name, **kw):
+        def f(ds, rng):
+            import tempfile
+
+            missing = os.path.join(tempfile.gettempdir(), "c17_no_such_dir_%d" % rng.randrange(10 ** 9), "sub", "out.nc")
+
+            def call():
+                try:
+                    getattr(ds.spec, name)(missing, **kw)
+                except Exception:
+                    return None   # the write fails (target directory does not exist / invalid format): the input must be as before
+                return None
+            return call, [kw]
+        return f
+
+    T["to_netcdf(failing: no such directory)"] = writer_failing("to_netcdf", ncformat="NETCDF3_64BIT", compress=False, packed=False)
+    T["to_netcdf(failing: invalid format)"] = writer_failing("to_netcdf", ncformat="NETCDF9")
+    T["to_swan(failing: no such directory)"] = writer_failing("to_swan")
     T["to_swan(scalar lon/lat)"] = writer_scalar_pos("to_swan")
     T["to_octopus(scalar lon/lat)"] = writer_scalar_pos("to_octopus")
     T["to_swan"] = writer("to_swan")
